@@ -14,6 +14,9 @@
      header.go RequestHeader.Del / del + args.go delAllArgsStable -> hdel
      args.go setArg                           -> setArg
      stripSensitiveHeadersOnRedirect          -> stripSensitiveHeadersOnRedirect (the six Del calls, in source order, then the case-insensitive sweep of h.h)
+     http.go Request.ResetBody                -> ResetBody;  postArgs.Reset / parsedPostArgs = false -> reset_postargs
+     http.go Request.bodyBytes / onlyMultipartForm / the postArgs fallback -> body_to_send (every body SOURCE: buffer, bodyRaw,
+                                                 multipart form, post args; the body stream is write's first branch)
      http.go Request.Write / writeBodyStream + header.go SetContentLength / AppendBytes -> write
                                                  (only what decides: method, generic headers, Content-Length / Content-Type /
                                                   Transfer-Encoding presence, number of body bytes; userinfo -> Authorization)
@@ -147,9 +150,34 @@ Record req := mkReq {
   r_ct : bool;               (* len(h.contentType) > 0 *)
   r_cl : Z;                  (* h.contentLength *)
   r_clb : bool;              (* len(h.contentLengthBytes) > 0 *)
-  r_body : Z;                (* len(req.bodyBytes()) (post args included) *)
-  r_stream : option Z        (* req.bodyStream != nil (set with bodySize -1): bytes it will yield *)
+  (* the body SOURCES of a Request, as Request.Write consults them *)
+  r_body : Z;                (* len(req.body.B): the body buffer (SetBody, BodyWriter, AppendBody) *)
+  r_stream : option Z;       (* req.bodyStream != nil (set with bodySize -1): bytes it will yield *)
+  r_raw : option Z;          (* req.bodyRaw != nil (SetBodyRaw): its length *)
+  r_mpart : option Z;        (* req.multipartForm != nil: length of marshalMultipartForm(form, boundary) *)
+  r_pargs : Z;               (* len(req.postArgs.QueryString()) *)
+  r_parsed : bool            (* req.parsedPostArgs *)
 }.
+
+(* a request whose only body sources are the buffer and/or a stream *)
+Definition mkReqB (m : bytes) (h : list hdr) (dn ct : bool) (cl : Z) (clb : bool) (body : Z) (stream : option Z) : req :=
+  mkReq m h dn ct cl clb body stream None None 0%Z false.
+
+(* field updates *)
+Definition set_method (r : req) (m : bytes) : req :=
+  mkReq m (r_h r) (r_dn r) (r_ct r) (r_cl r) (r_clb r) (r_body r) (r_stream r) (r_raw r) (r_mpart r) (r_pargs r) (r_parsed r).
+Definition set_h (r : req) (h : list hdr) : req :=
+  mkReq (r_method r) h (r_dn r) (r_ct r) (r_cl r) (r_clb r) (r_body r) (r_stream r) (r_raw r) (r_mpart r) (r_pargs r) (r_parsed r).
+Definition set_framing (r : req) (h : list hdr) (ct : bool) (cl : Z) (clb : bool) : req :=
+  mkReq (r_method r) h (r_dn r) ct cl clb (r_body r) (r_stream r) (r_raw r) (r_mpart r) (r_pargs r) (r_parsed r).
+Definition drop_stream (r : req) : req :=
+  mkReq (r_method r) (r_h r) (r_dn r) (r_ct r) (r_cl r) (r_clb r) (r_body r) None (r_raw r) (r_mpart r) (r_pargs r) (r_parsed r).
+(* req.ResetBody(): bodyRaw = nil, multipart form removed, body stream closed and dropped, body buffer emptied *)
+Definition ResetBody (r : req) : req :=
+  mkReq (r_method r) (r_h r) (r_dn r) (r_ct r) (r_cl r) (r_clb r) 0%Z None None None (r_pargs r) (r_parsed r).
+(* req.postArgs.Reset(); req.parsedPostArgs = false *)
+Definition reset_postargs (r : req) : req :=
+  mkReq (r_method r) (r_h r) (r_dn r) (r_ct r) (r_cl r) (r_clb r) (r_body r) (r_stream r) (r_raw r) (r_mpart r) 0%Z false.
 
 (* normalizeHeaderKey on a key made of valid header-field bytes *)
 Fixpoint normKey_go (upper : bool) (k : bytes) : bytes :=
@@ -179,7 +207,7 @@ Definition hdel (key : bytes) (r : req) : req :=
   let ct := if beq k HeaderContentType then false else r_ct r in
   let cl := if beq k HeaderContentLength then 0%Z else r_cl r in
   let clb := if beq k HeaderContentLength then false else r_clb r in
-  mkReq (r_method r) (delAllArgs (r_h r) k) (r_dn r) ct cl clb (r_body r) (r_stream r).
+  set_framing r (delAllArgs (r_h r) k) ct cl clb.
 
 (* the six Del calls of stripSensitiveHeadersOnRedirect, in source order *)
 Definition sensitive_names : list bytes :=
@@ -193,8 +221,7 @@ Definition stripSensitiveHeadersOnRedirect (r : req) (initialHost redirectHostPo
   else
     let r1 := fold_left (fun r k => hdel k r) sensitive_names r in
     (* whether or not normalizing is disabled right now: every entry of h.h whose key is any spelling of the six names goes *)
-    mkReq (r_method r1) (filter (fun kv => negb (isSensitiveRedirectHeader (fst kv))) (r_h r1)) (r_dn r1)
-          (r_ct r1) (r_cl r1) (r_clb r1) (r_body r1) (r_stream r1).
+    set_h r1 (filter (fun kv => negb (isSensitiveRedirectHeader (fst kv))) (r_h r1)).
 
 (* ---- what one written request looks like on the wire ---------------------------------------- *)
 Definition lower_ascii (b : N) : N := if (65 <=? b) && (b <=? 90) then b + 32 else b.
@@ -215,6 +242,18 @@ Definition mk_sent (r : req) (body : Z) : sent :=
   mkSent (r_method r) (filter (fun kv => is_sens_name (fst kv)) (r_h r)) body
          (r_clb r) (r_ct r || (0 <? r_cl r)%Z) (has_key HeaderTransferEncoding (r_h r)).
 
+(* the body Request.Write sends when there is no body stream, in its fallback order:
+     body := bodyBytes()                       -- bodyRaw if non-nil, else the body buffer
+     if onlyMultipartForm() { body = marshalMultipartForm(...) }   -- a multipart form and an EMPTY body buffer
+     if len(body) == 0 { body = postArgs.QueryString() }
+   second component: the multipart branch was taken (it also sets the multipart Content-Type) *)
+Definition body_to_send (r : req) : Z * bool :=
+  let body := match r_raw r with Some n => n | None => r_body r end in
+  let only_mp := match r_mpart r with Some _ => (r_body r =? 0)%Z | None => false end in
+  let body := if only_mp then match r_mpart r with Some n => n | None => body end else body in
+  let body := if (body =? 0)%Z then r_pargs r else body in
+  (body, only_mp).
+
 (* Request.Write *)
 Definition write (uinfo : option bytes) (r : req) : req * sent :=
   let h1 := match uinfo with
@@ -223,18 +262,20 @@ Definition write (uinfo : option bytes) (r : req) : req * sent :=
             end in
   match r_stream r with
   | Some n =>
-      (* writeBodyStream, size unknown: SetContentLength(-1), chunked body, stream closed and dropped *)
-      let r' := mkReq (r_method r) (setArg h1 HeaderTransferEncoding strChunked) (r_dn r) (r_ct r) (-1)%Z false (r_body r) None in
+      (* writeBodyStream, size unknown: SetContentLength(-1), chunked body, stream closed and dropped; no other source is looked at *)
+      let r' := drop_stream (set_framing r (setArg h1 HeaderTransferEncoding strChunked) (r_ct r) (-1)%Z false) in
       (r', mk_sent r' n)
   | None =>
-      if negb (r_body r =? 0)%Z || negb (ignoreBody (r_method r)) then
+      let (body, mp) := body_to_send r in
+      let ct := r_ct r || mp in                                            (* SetMultipartFormBoundary sets Content-Type *)
+      if negb (body =? 0)%Z || negb (ignoreBody (r_method r)) then
         (* hasBody: SetContentLength(len(body)) *)
-        let r' := mkReq (r_method r) (delAllArgs h1 HeaderTransferEncoding) (r_dn r) (r_ct r) (r_body r) true (r_body r) None in
-        (r', mk_sent r' (r_body r))
+        let r' := set_framing r (delAllArgs h1 HeaderTransferEncoding) ct body true in
+        (r', mk_sent r' body)
       else
         (* nothing but the header goes out.  Observable convention: -1 = a (stale) Transfer-Encoding line announces a body
            that never comes, 0 = no body *)
-        let r' := mkReq (r_method r) h1 (r_dn r) (r_ct r) (r_cl r) (r_clb r) (r_body r) None in
+        let r' := set_framing r h1 ct (r_cl r) (r_clb r) in
         (r', mk_sent r' (if has_key HeaderTransferEncoding h1 then (-1)%Z else 0%Z))
   end.
 
@@ -242,11 +283,11 @@ Definition write (uinfo : option bytes) (r : req) : req * sent :=
 Definition rewrite_req (status : Z) (r : req) : req :=
   if (status =? StatusSeeOther)%Z then
     let m := if ignoreBody (r_method r) then r_method r else MethodGet in
-    let r1 := mkReq m (r_h r) (r_dn r) (r_ct r) (r_cl r) (r_clb r) (r_body r) (r_stream r) in
+    let r1 := set_method r m in
     let r2 := hdel HeaderTrailer (hdel HeaderTransferEncoding (hdel HeaderContentType (hdel HeaderContentLength r1))) in
-    mkReq (r_method r2) (r_h r2) (r_dn r2) (r_ct r2) (r_cl r2) (r_clb r2) 0%Z None          (* ResetBody, postArgs.Reset *)
+    reset_postargs (ResetBody r2)                  (* req.ResetBody(); req.postArgs.Reset(); req.parsedPostArgs = false *)
   else if beq (r_method r) MethodPost && ((status =? StatusMovedPermanently) || (status =? StatusFound))%Z then
-    mkReq MethodGet (r_h r) (r_dn r) (r_ct r) (r_cl r) (r_clb r) (r_body r) (r_stream r)
+    set_method r MethodGet
   else r.
 
 (* ---- the loop ----------------------------------------------------------------------------------- *)
